@@ -188,8 +188,22 @@ impl<'a, H: HashAlgorithm> Ctx<'a, H> {
                     let a = catch_unwind(AssertUnwindSafe(|| v.confirm_nonexistence(&rq)));
                     cn.push(json!({"k":q,"ans": match a { Err(_) => "PANIC", Ok(Ok(true)) => "true", Ok(Ok(false)) => "false", Ok(Err(_)) => "OutOfScope" }}));
                 }
+                // "borrowed value" queries: key q claimed to hold the exact value hash of ANOTHER present key k2
+                // (true of no map): the answer must never be "true"
+                let mut cvx = Vec::new();
+                for q in &self.case.universe {
+                    for (k2, v2) in &self.case.kv {
+                        if k2 == q {
+                            continue;
+                        }
+                        let leaf = LeafData { key_path: self.sp.real_key(q), value_hash: H::hash_value(&self.sp.value_bytes(k2, v2)) };
+                        let a = catch_unwind(AssertUnwindSafe(|| v.confirm_value(&leaf)));
+                        cvx.push(json!({"k":q,"of":k2,"ans": match a { Err(_) => "PANIC", Ok(Ok(true)) => "true", Ok(Ok(false)) => "false", Ok(Err(_)) => "OutOfScope" }}));
+                    }
+                }
                 rec["cv"] = J::Array(cv);
                 rec["cn"] = J::Array(cn);
+                rec["cvx"] = J::Array(cvx);
                 verified = Some(v);
             }
         }
@@ -594,6 +608,16 @@ fn multi_record<H: HashAlgorithm>(
                 let a = ans3(catch_unwind(AssertUnwindSafe(|| v.confirm_nonexistence(&rq))));
                 let ai = if let Ok(Ok(i)) = idx { ans3(catch_unwind(AssertUnwindSafe(|| v.confirm_nonexistence_with_index(&rq, i)))) } else { "OutOfScope" };
                 qs.push(json!({"q":"nonexist","k":q,"ans":a,"ansIdx":ai,"idxOk":idx_ok}));
+                // borrowed-value queries (see path records)
+                for (k2, v2) in &case.kv {
+                    if k2 == q {
+                        continue;
+                    }
+                    let leaf = LeafData { key_path: rq, value_hash: H::hash_value(&sp.value_bytes(k2, v2)) };
+                    let a = ans3(catch_unwind(AssertUnwindSafe(|| v.confirm_value(&leaf))));
+                    let ai = if let Ok(Ok(i)) = idx { ans3(catch_unwind(AssertUnwindSafe(|| v.confirm_value_with_index(&leaf, i)))) } else { "OutOfScope" };
+                    qs.push(json!({"q":"valuex","k":q,"of":k2,"ans":a,"ansIdx":ai}));
+                }
             }
             rec["queries"] = J::Array(qs);
             if with_update {
